@@ -261,8 +261,12 @@ def parse_kani_unit(path):
     return meta
 
 
-# float-SIMD pseudo overflow of pathfinder, and Kani's informational NaN checks (a NaN result is not a Rust panic)
-IGNORE_DEFAULT = re.compile(r'simd_(add|sub|mul|div)|pathfinder|NaN on (addition|subtraction|multiplication|division)')
+# Kani's informational NaN checks (a NaN result is not a Rust panic; CBMC's --nan-check is an assertion without an assumption).
+# NOT ignored any more: Kani's "attempt to compute simd_* which would overflow" on float lanes. That check is spurious, but Kani
+# ASSUMES it afterwards, which silently prunes every path through the SIMD operation (measured: C16_cont missed a seeded change
+# that way). Harnesses that reach pathfinder's Vector2F arithmetic stub the SSE intrinsics lane-wise instead (see C16_cont).
+IGNORE_DEFAULT = re.compile(r'NaN on (addition|subtraction|multiplication|division)')
+SIMD_PSEUDO = re.compile(r'attempt to compute simd_(add|sub|mul|div)')
 
 
 class Scratch:
@@ -401,6 +405,10 @@ def run_kani(units, tier, jobs=8, repo=REPO, mem_kb=12_000_000, keep=False, only
                     hr['status'] = 'fail'
                 else:
                     hr['reason'] = r.get('reason', r['status'])
+                # float-SIMD pseudo overflow: not a defect of the code, but the paths behind it were pruned -> the harness decides nothing
+                if hr['status'] == 'fail' and all(SIMD_PSEUDO.search(f['desc']) for f in hr['failed']):
+                    hr['status'] = 'undecided'
+                    hr['reason'] = 'float-SIMD pseudo overflow check prunes paths: stub the SSE intrinsics in this harness'
                 # unwinding assertion failures mean the bound is too small: undecided, not a violation
                 if hr['status'] == 'fail' and all('unwinding assertion' in f['desc'] for f in hr['failed']):
                     hr['status'] = 'undecided'
